@@ -290,7 +290,7 @@ func permutations(xs []string) [][]string {
 func main() { mon.Main("C05", run) }
 
 func run(r *mon.Run) {
-	r.Rule("for each of ~40 valid base bundles (b1/b2, 0..5 exchanges, with/without primary / manifest / signatures / a b1 variants entry) built by the reference builder: every CBOR head (section lengths, section-lengths byte string, section count, index map count, each index offset and length, each response's array/bstr heads, header-map count and string lengths, b1 variants value) overridden in turn with each of {0, exact-1, exact+1, file size, file size - offset (+1), 2^32, 2^63-1, 2^63, 2^64-1, values that wrap offset+value past 2^64} in every legal head size; consistent multi-field overrides that enlarge responses-section length + index length + body length by the same k so that the claimed bytes lie k bytes past the end of the input (with and without the trailer present); sections permuted / duplicated / dropped / unknown sections (random and decoy-index content) inserted at every position; truncation at every offset; seeded random byte edits; distinct = (class, mutation kind, outcome)")
+	r.Rule("for each of ~40 valid base bundles (b1/b2, 0..5 exchanges, with/without primary / manifest / signatures / a b1 variants entry) built by the reference builder: every CBOR head (section lengths, section-lengths byte string, section count, index map count, each index offset and length, each response's array/bstr heads, header-map count and string lengths, b1 variants value) overridden in turn with each of {0, exact-1, exact+1, file size, file size - offset (+1), 2^32, 2^63-1, 2^63, 2^64-1, values that wrap offset+value past 2^64} in every legal head size; consistent multi-field overrides that enlarge responses-section length + index length + body length by the same k so that the claimed bytes lie k bytes past the end of the input (with and without the trailer present); sections permuted / duplicated / dropped / unknown sections (random and decoy-index content) inserted at every position; truncation at every offset; every single-bit flip / byte deletion / byte duplication of the small bases; seeded random byte edits; distinct = (class, mutation kind, outcome)")
 	r.Assume("rbundle.Extract mirrors the reader's documented leniency (Appendix A of DESIGN.md): non-canonical heads tolerated, trailer ignored, unknown sections occupy their length; it is exact only about locations. Divergences confined to the primary/manifest/signatures sections are counted, not judged")
 	idA := gen.NewIdentity(r.Rand("ids", 0), gen.Curves[0], "example.com", 1)
 	certMap, _ := rcbor.Map([]rcbor.KV{{K: rcbor.Text("cert"), V: rcbor.Bytes(idA.Certs[0].Raw)}, {K: rcbor.Text("ocsp"), V: rcbor.Bytes([]byte("ocsp"))}})
@@ -532,6 +532,28 @@ func run(r *mon.Run) {
 					continue // large bundles: every offset near both ends, a stride in the middle of the big body
 				}
 				judge(r, pristine[:cut], "truncated", fmt.Sprintf("%s/cut", name), false, 1999)
+			}
+		}
+		// (4b) every single-bit flip and every single-byte deletion / duplication of the small bases
+		if len(pristine) <= 400 && (r.Thorough || bi%6 == 0) {
+			for bit := 0; bit < 8*len(pristine); bit++ {
+				caseNo++
+				if !r.Mine(caseNo) {
+					continue
+				}
+				x := append([]byte{}, pristine...)
+				x[bit/8] ^= 1 << uint(bit%8)
+				judge(r, x, "bitflip", name, false, 9001)
+			}
+			for off := 0; off < len(pristine); off++ {
+				caseNo++
+				if !r.Mine(caseNo) {
+					continue
+				}
+				del := append(append([]byte{}, pristine[:off]...), pristine[off+1:]...)
+				judge(r, del, "byte-deleted", name, false, 9001)
+				dup := append(append(append([]byte{}, pristine[:off+1]...), pristine[off]), pristine[off+1:]...)
+				judge(r, dup, "byte-duplicated", name, false, 9001)
 			}
 		}
 		// (5) seeded random byte edits
